@@ -235,6 +235,28 @@ class Exec:
             return self.havoc(fty)
         return self.opq()
 
+    def place_key(self, env, txt):
+        """overlay key (opaque base id, ".i") of a field place `(P.i: T)` whose base is an opaque value, else None"""
+        txt = txt.strip()
+        if not (txt.startswith("(") and match_paren(txt, 0) == len(txt) - 1):
+            return None
+        inner = txt[1:-1].strip()
+        if inner.startswith("*"):
+            return None
+        if inner.startswith("("):
+            j = match_paren(inner, 0)
+            base_txt, rest = inner[: j + 1], inner[j + 1:]
+        else:
+            m = re.match(r"^(_\d+)(.*)$", inner, re.S)
+            if not m:
+                return None
+            base_txt, rest = m.group(1), m.group(2)
+        m = re.match(r"^\.(\d+): (.*)$", rest, re.S)
+        if not m or re.match(r"^\((.+) as (\w+)\)$", base_txt, re.S):
+            return None
+        base = self.place(env, base_txt)
+        return (base[1], f".{int(m.group(1))}") if base[0] == "opaque" else None
+
     def store(self, env, lhs, val):
         """`(P.i: T) = v` through an opaque struct / reference: remembered in a per-path overlay"""
         lhs = lhs.strip()
@@ -242,6 +264,12 @@ class Exec:
             return
         inner = lhs[1:-1].strip()
         if inner.startswith("*"):
+            # `(*_r) = v` where _r was loaded from a field holding a reference (closure captures `&mut x`)
+            tgt = (env.get("$alias") or {}).get(inner[1:].strip())
+            if tgt:
+                st = dict(env.get("$stores") or {})
+                st[tgt] = val
+                env["$stores"] = st
             return
         if inner.startswith("("):
             j = match_paren(inner, 0)
@@ -472,6 +500,8 @@ class Exec:
                         break
                 self.cur_events, self.cur_callee, self.cur_pc = events, callee, pc
                 res = model(self, argv) if model else self.havoc(self.locs.get(dst))
+                for bl in env.get("$mutborrowed") or ():
+                    env[bl] = self.havoc(self.locs.get(bl))
                 env[dst] = res
                 if model or name in self.log_calls or "*" in self.log_calls:
                     events = events + (("call", name, argv, res, len(pc), callee),)
@@ -486,6 +516,19 @@ class Exec:
             m = re.match(r"^(_\d+) = (.*)$", st)
             if m:
                 env[m.group(1)] = self.rvalue(env, m.group(1), m.group(2))
+                bm = re.match(r"^&mut (_\d+)$", m.group(2).strip())
+                if bm:
+                    ty = (self.locs.get(bm.group(1)) or "").strip()
+                    if ty in INT_RANGES or ty == "bool" or ty.endswith("Status"):
+                        # a scalar local whose address escapes mutably: any later call may write through the reference
+                        env["$mutborrowed"] = tuple(set(env.get("$mutborrowed") or ()) | {bm.group(1)})
+                am = re.match(r"^(?:no_retag )?(?:copy|move) (\(.*\))$", m.group(2).strip())
+                if am and (self.locs.get(m.group(1), "").startswith("&")):
+                    k = self.place_key(env, am.group(1))
+                    if k:
+                        al = dict(env.get("$alias") or {})
+                        al[m.group(1)] = k
+                        env["$alias"] = al
                 continue
             m = re.match(r"^(\(.*\)) = (.*)$", st)
             if m and "->" not in st:
